@@ -250,6 +250,8 @@ def content_field(ref):
 
 
 def havoc_value(st, cur, hint):
+    if hasattr(cur, 'havoc'):
+        return cur.havoc(st, hint)
     if isinstance(cur, (SymMap, dict)):
         return SymMap.fresh(st, hint)
     if isinstance(cur, (SymSet, frozenset)):
